@@ -1421,7 +1421,20 @@ impl<'l> CelCompiler<'l> {
                             let mut comp = CelCompiler::with_tokenizer(&mut tok);
                             comp.depth = self.depth;
 
-                            let (e, _) = comp.parse_expression()?;
+                            // The nested compiler counts lines and columns from the
+                            // start of the segment, a position that need not exist in
+                            // the surrounding source. Report the format string the
+                            // segment belongs to.
+                            let (e, _) = comp.parse_expression().map_err(|err| match err {
+                                CelError::Syntax(inner) => CelError::Syntax(
+                                    SyntaxError::from_location(loc.start()).with_message(format!(
+                                        "In format string segment {{{}}}: {}",
+                                        e,
+                                        inner.message().unwrap_or("SYNTAX ERROR")
+                                    )),
+                                ),
+                                other => other,
+                            })?;
                             details.union_from(e.details().clone());
 
                             bytecode.push(
